@@ -133,7 +133,9 @@ OnCalcH(e) ==
         d5 == IF s.inited /\ e.idx0 # s.swIdx THEN d4 \cup {"switch_pointer_continuity"} ELSE d4
         ph2 == CASE s.ph \in {"adv", "rej", "begin"} -> "top" [] OTHER -> s.ph
         (* C04 / C20: with a fixed step the configured step is the one in use *)
-        v1 == IF e.fixed_is_configured THEN s.viol ELSE s.viol \cup {"FixedStepIsConfiguredStep"}
+        v0 == IF e.fixed_is_configured THEN s.viol ELSE s.viol \cup {"FixedStepIsConfiguredStep"}
+        (* C04: a rejected step gives back exactly the time it took (also when the step had been clipped to an event or the end time) *)
+        v1 == IF e.reject_keeps_time THEN v0 ELSE v0 \cup {"RejectedStepGivesTimeBack"}
     IN [s EXCEPT !.ph = ph2, !.swIdx = e.idx, !.nxt = (IF e.has_next THEN e.nxt ELSE NoT), !.drift = d5, !.viol = v1]
 
 DueT(i, tf) == IsDue(Tm(i).en, Tm(i).tau, Zero, tf)
